@@ -95,6 +95,12 @@ func errReachesReturn(fn *ssa.Function, v ssa.Value) bool {
 				if val, ok := in.(ssa.Value); ok && tupleHasError(val.Type()) {
 					add(val)
 				}
+				// collected in a list first: found = append(found, err)
+				if bi, ok := in.Common().Value.(*ssa.Builtin); ok && bi.Name() == "append" {
+					if val, ok := in.(ssa.Value); ok {
+						add(val)
+					}
+				}
 			case *ssa.BinOp:
 				// v != nil controlling a return of a non-nil error
 				if nn, ok := isNilCheck(in, x); ok {
